@@ -437,6 +437,29 @@ func Execute(t *testing.T, sc Scenario, c *Case, recording bool, tapeSeed uint64
 				v.Violations = append(v.Violations, Violation{CrashClass(c.Prop, cr),
 					fmt.Sprintf("node %s died in goroutine %s: %s\n%s", cr.Node, cr.Goroutine, cr.Msg, cr.Stack)})
 			}
+			// conflicting accesses to one map that nothing orders: with real
+			// threads the run-time kills the process. A violation where the
+			// property says the process survives; counted everywhere else.
+			for _, mr := range s.MapRaces() {
+				a, b := mr.First, mr.Second
+				if b < a {
+					a, b = b, a
+				}
+				kind := func(w bool) string {
+					if w {
+						return "write"
+					}
+					return "read"
+				}
+				if RaceIsCrash[c.Prop] {
+					v.Violations = append(v.Violations, Violation{c.Prop + "/crash/concurrent-map-access@" + a + "+" + b,
+						fmt.Sprintf("node %s: goroutine %s %s a map at %s and had executed nothing since when goroutine %s %s the same map at %s: no lock, channel or other synchronisation orders the two accesses; on real threads they can overlap and the run-time stops the process (fatal error: concurrent map %s)",
+							mr.Node, mr.G1, kind(mr.FirstWrite)+"s", mr.First, mr.G2, kind(mr.SecondWrite)+"s", mr.Second,
+							map[bool]string{true: "writes", false: "read and map write"}[mr.FirstWrite && mr.SecondWrite])})
+				} else {
+					env.Probe("unordered-map-accesses@" + a + "+" + b)
+				}
+			}
 			if res.StepCap {
 				v.Inconclusive = "step cap reached"
 			}
@@ -480,6 +503,10 @@ func Execute(t *testing.T, sc Scenario, c *Case, recording bool, tapeSeed uint64
 	}
 	return v
 }
+
+// RaceIsCrash names the properties whose statement says that the process does
+// not crash: there an unordered pair of conflicting map accesses is a violation.
+var RaceIsCrash = map[string]bool{"C12": true, "C17": true, "C19": true}
 
 // PostChecker is implemented by scenarios whose oracle has a part that runs
 // after the bubble has ended.
